@@ -16,7 +16,7 @@ OWNER = {
     'table': 'C16', 'routing': 'C16',
     'keyslot': 'C01', 'ikekeys': 'C01', 'sa.haskeys': 'C01',
     'dh': 'C18', 'sa.cookie': 'C18',
-    'clear': 'C07', 'auth': 'C02',
+    'clear': 'C07', 'seal': 'C07', 'auth': 'C02',
 }
 
 
